@@ -14,6 +14,9 @@ CONFIGS = {
     # one key, three replicas, three operations: the smallest universe in which merge ORDER matters
     "MK3": dict(Keys={1}, Nodes={1, 2}, F=2, Times={0, 1, 2}, Replicas={1, 2, 3}, MaxOps=3, MaxMerges=0, Mode='"prefix"'),
     "MK4": dict(Keys={1}, Nodes={1, 2}, F=3, Times={0, 1, 2}, Replicas={1, 2, 3}, MaxOps=3, MaxMerges=0, Mode='"window"'),
+    # three origin nodes
+    "M3N": dict(Keys={1, 2}, Nodes={1, 2, 3}, F=2, Times={0, 1, 2}, Replicas={1, 2}, MaxOps=2, MaxMerges=1, Mode='"prefix"'),
+    "M3K": dict(Keys={1}, Nodes={1, 2, 3}, F=2, Times={0, 1, 2}, Replicas={1, 2, 3}, MaxOps=3, MaxMerges=0, Mode='"prefix"'),
     "MG": dict(Keys={1, 2}, Nodes={1, 2}, F=2, Times={0, 3, 4}, Replicas={1, 2}, MaxOps=3, MaxMerges=2, Mode='"prefix"'),
 }
 # C08's local facts on sets reached through merges (WithPurge): one origin, stamps inside one window, three operations
@@ -21,7 +24,7 @@ CONFIGS = {
 CONFIGS["MP"] = dict(Keys={1, 2}, Nodes={1}, F=3, Times={0, 1, 2, 3}, Replicas={1, 2}, MaxOps=3, MaxMerges=1, Mode='"window"', Sources={0})
 CONFIGS["MQ"] = dict(Keys={1, 2}, Nodes={1, 2}, F=2, Times={0, 1, 2, 3}, Replicas={1, 2}, MaxOps=2, MaxMerges=2, Mode='"prefix"')
 PURGE_TIERS = {"quick": ["MP", "MQ"], "thorough": ["MP", "MQ", "MG"]}
-TIERS = {"quick": ["MA", "ME", "MW", "MK3", "MK4"], "thorough": ["MA", "ME", "MW", "MK3", "MK4", "MB", "MC", "MF", "MG"]}
+TIERS = {"quick": ["MA", "ME", "MW", "MK3", "MK4"], "thorough": ["MA", "ME", "MW", "MK3", "MK4", "MB", "MC", "MF", "MG", "M3N", "M3K"]}
 INVARIANTS = ["C03_Commutative", "C03_Idempotent", "C03_Associative", "C03_MutualMerge",
               "C05_DiffExact", "C05_OneExchange", "C05_MutualRepair", "WellFormedInv"]
 
